@@ -206,6 +206,45 @@ CHECKS['C19'] = dict(
     design='5/C19',
 )
 
+CHECKS['C15'] = dict(
+    level='exploration',
+    text=("Bounded-exhaustive against an independent Appendix-B reference (mc/mmref.py, validated by verifying every shipped "
+          "benchmark): every step number 1..10^6 (2*10^6 thorough) encoded by the reference and decoded by "
+          "MetamathConverter._import_proof in two whitespace layouts; every letter string up to length 4/5 over the "
+          "compressed alphabet incl. Z that the reference accepts; label lists of length 0-3 through parse_database in six "
+          "layouts; targets with 0-3 mandatory variables with the floating hypotheses declared in every order, one "
+          "subprocess per hash seed in a window selected by VERIF_SEED (observed set-iteration orders are listed)."),
+    note='Hash seeds: 8 (quick) / 32 (thorough) per run; orders of the 2- and 3-element variable sets actually observed are in the evidence.',
+    technique='bounded-exhaustive enumeration of numbers, letter strings, layouts and (declaration order x hash seed) configurations',
+    design='5/C15',
+)
+CHECKS['C16'] = dict(
+    level='model_checking',
+    text=("Breadth-first search over proof trees: for each feature vector (order of floating hypotheses, declared notation, "
+          "rules with essential hypotheses) ALL derivations up to height 2/3 over a term pool are generated, verified by the "
+          "reference Metamath verifier, written in three compression layouts (no Z / every repeated sub-proof / first repeated "
+          "sub-proof) and translated by the body of translate.main with both optimise settings; the reference machine's "
+          "journal must show the images of the database's axioms and rules and the image of the target as the one claim "
+          "proved, the real checker must accept, and all layouts must agree. Shipped benchmarks are translated and checked too."),
+    note=("Known finding: databases whose floating hypotheses are not declared in the order ph0, ph1, ph2 (positional "
+          "instantiation of prop-1/prop-2 in exec_proof). Quick tier strides over derivations of all but the first feature vector."),
+    technique='BFS over derivations of generated databases; translation validated by reference machine and real checker',
+    design='5/C16',
+)
+CHECKS['C17'] = dict(
+    level='exploration',
+    text=("Bounded-exhaustive over a construction grammar of databases (order of floating hypotheses x declared notation x every "
+          "subset of {plain lemma, lemma under $e, lemma under $d, lemma in a nested block} x goal variants), all proofs "
+          "produced by the reference encoder and verified by the reference verifier: parse(print(db)) == db, printing "
+          "idempotent, printed text read back by an independent tokenizer; the slicing pipeline as main() drives it must "
+          "produce, for every lemma the goal needs, a slice that the reference verifier accepts (everything declared before "
+          "use), with floating hypotheses in original order, carrying the original compressed proof and statement. "
+          "All shipped benchmarks go through the print/parse part."),
+    note='Trusted: mc/mmref.py (verifier and tokenizer).',
+    technique='bounded-exhaustive enumeration of generated databases against a reference Metamath verifier',
+    design='5/C17',
+)
+
 NOT_YET = {
 }
 
